@@ -120,9 +120,8 @@ def _build(seed: int) -> dict:
     _STATE["utf8"] = [t[1].encode("utf-8") for t in toks]
     _STATE["latin1"] = [t[1].encode("latin-1") for t in toks]
     _STATE["nonascii"] = {1}  # token indices holding a non-ASCII character
-    # reduced alphabet for the deepest thorough layer: the five plain-text tokens become one
-    merged = (letter + "é<%\n")
-    _STATE["merged_text"] = merged
+    # reduced alphabet for the deepest thorough layer: all preserved-text tokens become one token
+    _STATE["merged_text"] = "".join(t[1] for t in toks if t[2] == TEXT)
     _STATE["keep"] = (A, B, P, W)  # keep classes alive (comp_hash_mapping is weak)
     _STATE["tags"] = {}
     boot.clear_render_registries()
@@ -258,21 +257,34 @@ def _short(b: bytes, n: int = 400) -> str:
     return s if len(s) <= n else s[:n] + "..."
 
 
-def _shrink(doc: tuple, kind: str, rtype: str, clause: str) -> tuple:
-    """Greedy token deletion that keeps the same oracle clause failing."""
+def _core(doc: tuple, fails, need_nonascii: bool = False) -> tuple:
+    """Deterministic greedy reduction keeping `fails(candidate)` true: delete tokens, then replace each
+    token by the first token of its class (so `</head >` / `MARK_A'` variants of one core collapse)."""
+    cls = _STATE["cls"]
+    ok = (lambda c: bool(_STATE["nonascii"].intersection(c))) if need_nonascii else (lambda c: True)
     cur = list(doc)
     again = True
     while again:
         again = False
         for j in range(len(cur)):
             cand = tuple(cur[:j] + cur[j + 1:])
-            if kind == "latin1" and not _STATE["nonascii"].intersection(cand):
-                continue
-            if check_one(cand, kind, rtype)[0] == clause:
+            if ok(cand) and fails(cand):
                 cur = list(cand)
                 again = True
                 break
+    for j in range(len(cur)):
+        for t in range(cur[j]):
+            if cls[t] == cls[cur[j]]:
+                cand = tuple(cur[:j] + [t] + cur[j + 1:])
+                if ok(cand) and fails(cand):
+                    cur = list(cand)
+                    break
     return tuple(cur)
+
+
+def _is_subseq(core: tuple, doc: tuple) -> bool:
+    it = iter(doc)
+    return all(t in it for t in core)
 
 
 def _docs(alphabet: list, lengths):
@@ -285,6 +297,7 @@ def _worker(w, W, payload):
     layers = payload["layers"]
     agg = par.Agg()
     seen_ids = set()
+    known_cores: dict = {}
     names = _STATE["names"]
     nonascii = _STATE["nonascii"]
     i = -1
@@ -306,19 +319,25 @@ def _worker(w, W, payload):
                         agg.nontrivial += 1
                     agg.observe(obs)
                     if clause is not None:
-                        core = _shrink(doc, kind, rtype, clause)
+                        agg.extra["failing_cases"] += 1
+                        # attribute to the kind-independent core when the plain-str input fails the same way
+                        k = kind
+                        if kind != "str" and check_one(doc, "str", rtype)[0] == clause:
+                            k = "str"
+                        if any(_is_subseq(c, doc) for c in known_cores.get((k, rtype, clause), ())):
+                            continue  # contains an already reported core of the same clause
+                        core = _core(doc, lambda c: check_one(c, k, rtype)[0] == clause, need_nonascii=(k == "latin1"))
+                        known_cores.setdefault((k, rtype, clause), []).append(core)
                         ident = f"rd:{rtype}:{clause}:{' '.join(names[t] for t in core)}"
-                        if kind == "latin1":
-                            ident += " [latin-1 bytes]"
+                        if k != "str":
+                            ident += f" [{k} input]"
                         if ident in seen_ids:
-                            agg.extra["failing_cases"] += 1
                             continue
                         seen_ids.add(ident)
-                        agg.extra["failing_cases"] += 1
-                        c2, what2, _, _, _ = check_one(core, kind, rtype)
-                        agg.fail(ident, f"render_dependencies({kind} {_short(_raw(core, kind), 200)!r}, type={rtype!r}) {what2}",
+                        what2 = check_one(core, k, rtype)[1]
+                        agg.fail(ident, f"render_dependencies({k} {_short(_raw(core, k), 200)!r}, type={rtype!r}) {what2}",
                                  {"part": "render_dependencies", "tokens": [_STATE["tokens"][t][1] for t in core],
-                                  "token_names": [names[t] for t in core], "kind": kind, "type": rtype, "clause": clause})
+                                  "token_names": [names[t] for t in core], "kind": k, "type": rtype, "clause": clause})
     return agg
 
 
@@ -410,17 +429,21 @@ def _mw_worker(w, W, payload):
                     agg.observe((obs, touched))
                     if clause is not None:
                         agg.extra["failing_cases"] += 1
-                        ident = f"mw:{clause}:{ctype}:{'stream' if streaming else 'plain'}:{' '.join(names[t] for t in doc)}"
-                        if clause == "content":  # same root cause as part A - key by the document only
-                            ident = f"mw:content:{' '.join(names[t] for t in doc)}" + (" [latin-1 bytes]" if enc == "latin1" else "")
-                        if clause.startswith("exception") and enc == "latin1":
-                            ident = f"mw:{clause}:{' '.join(names[t] for t in doc)} [latin-1 bytes]"
+                        core = _core(doc, lambda c: _mw_case(c, ctype, is_html, enc, streaming, is_async)[0] == clause,
+                                     need_nonascii=(enc == "latin1"))
+                        ident = f"mw:{clause}:{' '.join(names[t] for t in core)}"
+                        if enc == "latin1" and _STATE["nonascii"].intersection(core):
+                            ident += " [latin-1 body]"
+                        if clause in ("identity", "headers", "streaming", "non-html"):
+                            ident += f" [{ctype}, {'streaming' if streaming else 'plain'}]"
                         if ident in seen:
                             continue
                         seen.add(ident)
-                        agg.fail(ident, f"content_type={ctype!r} streaming={streaming} async={is_async} body={_short(b''.join(_STATE[enc][t] for t in doc), 200)!r}: {what}",
-                                 {"part": "middleware", "tokens": [_STATE["tokens"][t][1] for t in doc],
-                                  "token_names": [names[t] for t in doc], "content_type": ctype,
+                        what2 = _mw_case(core, ctype, is_html, enc, streaming, is_async)[1]
+                        agg.fail(ident, f"content_type={ctype!r} streaming={streaming} async={is_async} "
+                                        f"body={_short(b''.join(_STATE[enc][t] for t in core), 200)!r}: {what2}",
+                                 {"part": "middleware", "tokens": [_STATE["tokens"][t][1] for t in core],
+                                  "token_names": [names[t] for t in core], "content_type": ctype,
                                   "is_html": is_html, "enc": enc, "streaming": streaming, "async": is_async})
     return agg
 
@@ -431,16 +454,17 @@ def _layers(tier: str):
     full = list(range(n))
     layers = [(full, range(0, 5))]
     if tier == "thorough":
-        # deepest layer: the five plain-text tokens are one class (token index n = merged text)
+        # deepest layer: the preserved-text tokens (plain and look-alike) are one token (index n)
         _install_merged_token()
-        reduced = [i for i in full if i > 4] + [n]
+        reduced = [i for i in full if _STATE["cls"][i] != TEXT] + [n]
         layers.append((reduced, [5]))
     return layers
 
 
 def _install_merged_token():
-    if len(_STATE["names"]) > len(_STATE["tokens"]):
+    if _STATE.get("merged_installed"):
         return
+    _STATE["merged_installed"] = True
     m = _STATE["merged_text"]
     _STATE["names"].append("TEXT*")
     _STATE["cls"].append(TEXT)
@@ -448,6 +472,7 @@ def _install_merged_token():
     _STATE["latin1"].append(m.encode("latin-1"))
     _STATE["nonascii"].add(len(_STATE["tokens"]))
     _STATE["tokens"] = _STATE["tokens"] + [("TEXT*", m, TEXT)]
+    _selfcheck_alphabet()
 
 
 def run(ctx):
